@@ -186,6 +186,14 @@ fn case<S: Shape>(r: &mut Rng, acc: &mut Acc, index: u64, verbose: bool) {
     let multi = if merged { Some(crate::shapes::build_merged::<S>(&specs)) } else { None };
     let (mut single, mut multi) = (single, multi);
     if let Some(v) = &subst {
+        // the substitution in force is the latest one: in a third of the cases an earlier, different one (and an
+        // evaluation under it) comes first, as when a state animator enters the same state a second time
+        if index % 3 == 1 {
+            let other: Vec<f64> = v.iter().map(|x| if *x == 0.0 { 7.0 } else { (x * 0.5).trunc() - 3.0 }).collect();
+            let mut scratch = S::default();
+            if let Some(t) = single.as_mut() { t.start_with(&S::from_vals(&other)); t.update(&mut scratch, 0.03125); }
+            if let Some(t) = multi.as_mut() { t.start_with(&S::from_vals(&other)); t.update(&mut scratch, 0.03125); }
+        }
         if let Some(t) = single.as_mut() { t.start_with(&S::from_vals(v)) }
         if let Some(t) = multi.as_mut() { t.start_with(&S::from_vals(v)) }
     }
